@@ -4,7 +4,7 @@ LEVEL = "other"
 APP = "routee-compass"
 RF = APP + "/src/app/compass/response/response_output_format.rs"
 wit = KaniUnit("c19_wit", APP, modules=[dict(file=RF, src="c19_format_wit.rs")], harnesses=[])
-wit.native_witnesses = ["c19_wit_csv_formatting_keeps_the_search_error"]
+wit.native_witnesses = ["c19_wit_csv_formatting_keeps_the_search_error", "c19_wit_csv_row_cells_follow_the_header_order", "c19_wit_csv_cells_are_the_mapping_applied_to_the_response"]
 fm = VerusUnit("c19_format", "c19_format", rlimit=30, paired_kani=(wit, []))
 aw = KaniUnit("c19_app_wit", APP, modules=[dict(file=APP + "/src/app/compass/compass_app.rs", src="app_wit.rs")], harnesses=[])
 aw.native_witnesses = ["c19_wit_one_record_per_response_in_the_file"]
